@@ -388,6 +388,16 @@ def execute(plan):
         floor = g0 * 10 ** (-ag.Am / 10.0)
         if np.any(g > g0 * (1 + 1e-12)) or np.any(g < floor * (1 - 1e-12)) or np.max(np.abs(g - np.asarray(ag.get_antenna_gain(-ang)))) > 1e-12 * g0:
             viol("antenna_gain", len(plan["ops"]), "sector antenna gain is not peaked at boresight / symmetric / floored", rel="antenna")
+        # whole-degree angles in the integer dtypes a caller may hold them in, and the end points exactly
+        for dt in (np.int8, np.int16, np.int32, np.int64, np.float32):
+            lim = 127 if dt is np.int8 else 180
+            ai = np.array(sorted(set([0, lim, -lim] + [int(x) for x in rs.randint(-lim, lim + 1, size=10)])), dtype=dt)
+            gi = np.asarray(ag.get_antenna_gain(ai), dtype=float)
+            gf = np.asarray(ag.get_antenna_gain(ai.astype(float)), dtype=float)
+            if gi.shape != gf.shape or np.any(gi > g0 * (1 + 1e-6)) or np.any(gi < floor * (1 - 1e-6)) or np.max(np.abs(gi - gf)) > 1e-5 * g0:
+                viol("antenna_gain", len(plan["ops"]), "sector antenna gain for %s angles %s differs from the gain for the same angles as floats "
+                     "(or leaves [floor, boresight])" % (np.dtype(dt).name, ai.tolist()[:6]), rel="antenna", dtype=np.dtype(dt).name)
+                break
     except HarnessError:
         raise
     except Exception as e:
